@@ -39,10 +39,10 @@ func cmdRerun(args []string) {
 	type line struct {
 		Items []item            `json:"items"`
 		Ops   []json.RawMessage `json:"ops"`
-		Op   string `json:"op"`
-		T    int    `json:"t"`
-		Name string `json:"name"`
-		Raw  []struct {
+		Op    string            `json:"op"`
+		T     int               `json:"t"`
+		Name  string            `json:"name"`
+		Raw   []struct {
 			B []int `json:"b"`
 			P bool  `json:"p"`
 		} `json:"raw"`
